@@ -146,16 +146,25 @@ class CodeEval:
 
     def loop(self, st, env):
         """for i in range(x.shape[0]): if C: d[i] = E1 else: d[i] = E2   ==>   d = where(C, E1, E2)   (pointwise)"""
-        if not (isinstance(st.target, ast.Name) and isinstance(st.iter, ast.Call) and
-                ast.unparse(st.iter) in ("range(x.shape[0])", "range(y.shape[0])") and not st.orelse):
+        ok = isinstance(st.target, ast.Name) and isinstance(st.iter, ast.Call) and not st.orelse \
+            and ast.unparse(st.iter.func) == "range" and len(st.iter.args) == 1 and not st.iter.keywords
+        if ok:
+            try:
+                bound = self.expr(st.iter.args[0], env)       # the vector length, possibly through a local
+                ok = isinstance(bound, Sca) and bound.t.eq(N)
+            except Unsupported:
+                ok = False
+        if not ok:
             raise Unsupported("loop shape in metric body")
         ivar = st.target.id
         # per-element semantics: iteration i reads and writes element i only (checked by the index shapes accepted
         # below), so the loop is the pointwise map  v := ite(path condition of the assignment, value, previous v).
         # `continue` ends the element's iteration; a slot that no path writes keeps the value the vector was created
         # with (0 for np.zeros, an UNKNOWN for np.empty - uninitialised memory).
-        state = {"live": z3.BoolVal(True), "written": set()}
+        state = {"live": z3.BoolVal(True), "written": set(), "locals": set(), "top": True}
         self.block(st.body, env, ivar, z3.BoolVal(True), state)
+        for nm in state["locals"]:
+            env.pop(nm, None)       # per-element temporaries do not survive the loop
         if not state["written"]:
             raise Unsupported("loop writes no vector")
         return None
@@ -172,8 +181,22 @@ class CodeEval:
                 self.ctx.guards.append(here)
                 c = self.pexpr(node.test, env, ivar)
                 self.ctx.guards.pop()
+                top, state["top"] = state["top"], False
                 self.block(node.body, env, ivar, z3.And(guard, c), state)
                 self.block(node.orelse, env, ivar, z3.And(guard, z3.Not(c)), state)
+                state["top"] = top
+                continue
+            if isinstance(node, ast.Assign) and len(node.targets) == 1 and isinstance(node.targets[0], ast.Name):
+                # a per-element temporary: only at the top level of the loop body (it then dominates every later read
+                # of the same iteration), never a name that exists outside the loop
+                nm = node.targets[0].id
+                if not state["top"] or (nm in env and nm not in state["locals"]) or nm == ivar:
+                    raise Unsupported("assignment to %s inside the per-element loop" % nm)
+                self.ctx.guards.append(here)
+                val = self.pexpr(node.value, env, ivar)
+                self.ctx.guards.pop()
+                env[nm] = Vec(val)
+                state["locals"].add(nm)
                 continue
             if isinstance(node, ast.Assign) and len(node.targets) == 1 and isinstance(node.targets[0], ast.Subscript) \
                     and isinstance(node.targets[0].value, ast.Name) and isinstance(node.targets[0].slice, ast.Name) \
